@@ -2,13 +2,14 @@
 # confirm_seed.sh <seed dir> <pkg dir for demo> <test packages...>: confirms a seeded change in a scratch worktree:
 # demo fails with the change and passes without; the existing tests pass with the change.
 D="$1"; PKG="$2"; shift 2
+RACE=""; case "$D" in *C26-*) RACE="-race";; esac   # data-race demonstrations need the race detector
 WT=/tmp/wt-confirm-$$
 git -C /repo worktree add -q --detach $WT HEAD || exit 2
 cd $WT
 cp "$D/demo_test.go" $PKG/zz_seed_demo_test.go
-echo "--- demo without change (expect ok)"; go test -mod=mod -vet=off -count=1 -run "$(grep -o 'func Test[A-Za-z0-9_]*' $D/demo_test.go | sed 's/func //' | paste -sd'|')" ./$PKG 2>&1 | tail -2
+echo "--- demo without change (expect ok)"; go test $RACE -mod=mod -vet=off -count=1 -run "$(grep -o 'func Test[A-Za-z0-9_]*' $D/demo_test.go | sed 's/func //' | paste -sd'|')" ./$PKG 2>&1 | tail -2
 git apply "$D/patch.diff" || echo "PATCH FAILED"
-echo "--- demo with change (expect FAIL)"; go test -mod=mod -vet=off -count=1 -run "$(grep -o 'func Test[A-Za-z0-9_]*' $D/demo_test.go | sed 's/func //' | paste -sd'|')" ./$PKG 2>&1 | tail -2
+echo "--- demo with change (expect FAIL)"; go test $RACE -mod=mod -vet=off -count=1 -run "$(grep -o 'func Test[A-Za-z0-9_]*' $D/demo_test.go | sed 's/func //' | paste -sd'|')" ./$PKG 2>&1 | tail -2
 rm $PKG/zz_seed_demo_test.go
 echo "--- existing tests with change (expect ok)"; go test -mod=mod -vet=off -count=1 "$@" 2>&1 | grep -v "no test files" | grep -v "^ok" | tail -5; echo "(end)"
 cd /; git -C /repo worktree remove --force $WT
